@@ -231,7 +231,7 @@ def one(rng, separable=False):
     n = 1 if separable == 'multineg' else (2 if separable else rng.randint(1, 2))
     rows = gen_f(rng, n, separable)
     f = c03.sig_obj(rows, n)
-    kind = rng.choice(['none', 'none', 'none', 'box', 'ball'])
+    kind = rng.choice(['none', 'none', 'none', 'box', 'ball', 'negorthant', 'posorthant'])
     X, _ = sagecorr.make_domain(rng, n, kind)
     out, f7 = solve_all(f, X)
     ub = math.inf
@@ -279,6 +279,11 @@ def run(ctx):
     ctx.evaluations += 8
     if why:
         ctx.problem('oracle', 'property fails on the implementation: ' + why, inputs={'suite': 'override_conditional_dual'}, failing_input_found=True)
+    why = probe_cone_domains_and_affine_duals()
+    ctx.suites['cone_domains_and_affine_duals'] = {'cases': 22, 'failure': why}
+    ctx.evaluations += 22
+    if why:
+        ctx.problem('oracle', 'property fails on the implementation: ' + why, inputs={'suite': 'cone_domains_and_affine_duals'}, failing_input_found=True)
     why = probe_kernel_scale()
     ctx.suites['kernel_basis_small_scale'] = {'cases': 3, 'failure': why}
     ctx.evaluations += 3
@@ -333,6 +338,7 @@ def constrained_lattice(rng):
         f, gts = y[0] ** 2 + y[1] - float(rng.choice([1, 2])) * y[0], [4 - y[0] ** 2 - y[1] ** 2]
     saved = dict(sc.SETTINGS)
     out = {}
+    out1 = {}
     try:
         with warnings.catch_warnings():
             warnings.simplefilter('ignore')
@@ -348,9 +354,26 @@ def constrained_lattice(rng):
                         out[(form, pre, comp, feq)] = ss.sig_constrained_relaxation(f, gts, [], form=form, p=0, q=1, ell=0).solve(verbose=False)
                     except RuntimeError as e:
                         out[(form, pre, comp, feq)] = ('construction-error', str(e)[:50])
+                    if fam == 0 and not feq:
+                        # p = 1: the multiplier cones of the dual constrain AFFINE IMAGES of the dual variable (several scalar variables per component)
+                        try:
+                            out1[(form, pre, comp, feq)] = ss.sig_constrained_relaxation(f, gts, [], form=form, p=1, q=1, ell=0).solve(verbose=False)
+                        except RuntimeError as e:
+                            out1[(form, pre, comp, feq)] = ('construction-error', str(e)[:50])
     finally:
         sc.SETTINGS.clear()
         sc.SETTINGS.update(saved)
+    ref1 = None
+    for k, v in out1.items():
+        if v[0] == 'construction-error':
+            v = ('solved', -math.inf if k[0] == 'primal' else math.inf)
+        if v[0] != 'solved' or not isinstance(v[1], float) or math.isnan(v[1]):
+            continue
+        if ref1 is None:
+            ref1 = (k, v[1])
+        elif (math.isfinite(v[1]) != math.isfinite(ref1[1])) or (math.isfinite(v[1]) and abs(v[1] - ref1[1]) > 1e-4 * (1 + abs(ref1[1]))):
+            return ('constrained relaxation with p = 1 (family %d): value %r with options (form, presolve, compact_dual, force_equality)=%s but %r with %s'
+                    % (fam, ref1[1], ref1[0], v[1], k))
     ref = None
     for k, v in out.items():
         if v[0] == 'construction-error':
@@ -364,6 +387,74 @@ def constrained_lattice(rng):
         elif (math.isfinite(v[1]) != math.isfinite(ref[1])) or (math.isfinite(v[1]) and abs(v[1] - ref[1]) > 1e-4 * (1 + abs(ref[1]))):
             return ('constrained relaxation (family %d): value %r with options (form, presolve, compact_dual, force_equality)=%s but %r with %s'
                     % (fam, ref[1], ref[0], v[1], k))
+    return None
+
+
+def probe_cone_domains_and_affine_duals():
+    """(a) domains that are CONES ({x <= 0}, {x >= 0}) with a term that is a vertex of the Newton polytope in an unbounded direction: the bound and
+    the feasibility verdict do not depend on presolve_trivial_age_cones, in either form;  (b) a constrained relaxation with p = 1, whose multiplier
+    cones constrain affine images of the dual variable: primal, dual with compact cones and dual with epigraph cones agree"""
+    import sageopt.coniclifts as cl
+    import sageopt.coniclifts.constraints.set_membership.sage_cones as sc
+    import sageopt as so
+    from sageopt.symbolic.signomials import SigDomain
+    from sageopt.relaxations import sage_sigs as ss
+    saved = dict(sc.SETTINGS)
+    try:
+        with warnings.catch_warnings():
+            warnings.simplefilter('ignore')
+            def dom(sign, tag):
+                xd = cl.Variable(shape=(2,), name='cone_dom_' + tag)
+                return SigDomain(2, coniclifts_cons=[xd <= 0] if sign < 0 else [xd >= 0])
+            f1 = c03.sig_obj([([Fraction(-1), Fraction(0)], Fraction(1)), ([Fraction(0), Fraction(-1)], Fraction(1)), ([Fraction(1), Fraction(1)], Fraction(-1))], 2)
+            f2 = c03.sig_obj([([Fraction(1), Fraction(0)], Fraction(1)), ([Fraction(0), Fraction(1)], Fraction(1)), ([Fraction(1), Fraction(1)], Fraction(2)),
+                              ([Fraction(1, 2), Fraction(1, 2)], Fraction(-1))], 2)
+            for name, f, sign, tmin in (('exp(-x1) + exp(-x2) - exp(x1+x2) on {x <= 0}', f1, -1, 1.0), ('exp(x1) + exp(x2) + 2exp(x1+x2) - exp((x1+x2)/2) on {x >= 0}', f2, 1, 3.0)):
+                vals = {}
+                for form in ('primal', 'dual'):
+                    for pre in (False, True):
+                        for comp in ((True,) if form == 'primal' else (True, False)):
+                            sc.SETTINGS.update(saved)
+                            cl.presolve_trivial_age_cones(pre)
+                            cl.compact_sage_duals(comp)
+                            try:
+                                st, v = ss.sig_relaxation(f, dom(sign, '%s%d%d' % (form, pre, comp)), form=form).solve(verbose=False)
+                            except RuntimeError:
+                                st, v = 'solved', -math.inf
+                            if st == 'solved':
+                                vals[(form, pre, comp)] = v
+                for k, v in vals.items():
+                    if v > tmin + 1e-4 or abs(v - tmin) > 1e-3:
+                        return ('%s (minimum %g): (form, presolve_trivial_age_cones, compact_dual) = %s reports %r; other combinations: %s'
+                                % (name, tmin, k, v, {str(kk): vv for kk, vv in vals.items()}))
+                sc.SETTINGS.update(saved)
+                feas = {}
+                for pre in (False, True):
+                    cl.presolve_trivial_age_cones(pre)
+                    try:
+                        st, v = ss.sage_feasibility(f - 0.5, dom(sign, 'feas%d' % pre)).solve(verbose=False)
+                        feas[pre] = (st == 'solved' and v > -math.inf)
+                    except RuntimeError:
+                        feas[pre] = False
+                if feas[False] != feas[True] or not feas[True]:
+                    return '%s minus 0.5 is X-SAGE: %s without the presolve, %s with presolve_trivial_age_cones (it is: the minimum is %g)' % (name, feas[False], feas[True], tmin)
+            sc.SETTINGS.update(saved)
+            y = so.standard_sig_monomials(1)[0]
+            fo = y ** 3 - 4 * y ** 2 + 7 * y + y ** -1
+            go = 2 - y - 0.5 * y ** -1
+            for p_ in (0, 1):
+                got = {}
+                for form, comp in (('primal', True), ('dual', True), ('dual', False)):
+                    sc.SETTINGS.update(saved)
+                    cl.compact_sage_duals(comp)
+                    got[(form, comp)] = ss.sig_constrained_relaxation(fo, [go], [], form=form, p=p_).solve(verbose=False)
+                vs = [v[1] for v in got.values() if v[0] == 'solved']
+                if len(vs) == 3 and (not all(math.isfinite(v) for v in vs) or max(vs) - min(vs) > 1e-4 * (1 + abs(vs[0]))):
+                    return ('min x^3 - 4x^2 + 7x + 1/x s.t. 2 - x - 0.5/x >= 0 at p = %d: (form, compact_dual) -> value is %s; the three must agree'
+                            % (p_, {str(k): v for k, v in got.items()}))
+    finally:
+        sc.SETTINGS.clear()
+        sc.SETTINGS.update(saved)
     return None
 
 
